@@ -64,6 +64,27 @@ def evenOp (j : Json) : R Json := do
     return .arr (g.map fun (v, es) => Json.arr #[toJson v,
       .arr (es.map fun ((a, b), t) => Json.arr #[toJson a, toJson b, toJson t]).toArray]).toArray
 
+/-- run a non-reducedness certificate through `checkCert` (sound by `GT.C07.checkCert_sound`):
+`M` is the Coxeter matrix with every infinite label written `0`; steps are `["b", pos]` / `["s", pos]` -/
+def certOp (j : Json) : R Json := do
+  let rows ← (← arr (← field j "M")).mapM fun r => do (← arr r).mapM nat
+  let M : Nat → Nat → Nat := fun a b => match rows[a]? with
+    | some r => (r[b]?).getD 0
+    | none => 0
+  let w ← (← arr (← field j "word")).mapM nat
+  if w.any (fun k => k ≥ rows.size) then throw "KeyError"
+  let steps ← (← arr (← field j "steps")).mapM fun s => do
+    let a ← arr s
+    if a.size ≠ 2 then throw "bad step"
+    let pos ← nat a[1]!
+    match ← str a[0]! with
+    | "b" => pure (CertStep.braid pos)
+    | "s" => pure (CertStep.square pos)
+    | _ => throw "bad step"
+  match checkCert M w.toList steps.toList with
+  | none => throw "cert-rejected"
+  | some w' => return Json.mkObj [("final", toJson w'), ("shorter", toJson (decide (w'.length < w.size)))]
+
 def ops : List (String × Handler) :=
-  [("c07.automaton", automatonOp), ("c07.even", evenOp)]
+  [("c07.automaton", automatonOp), ("c07.even", evenOp), ("c07.cert", certOp)]
 end GT.Driver.C07
